@@ -83,6 +83,8 @@ func main() {
 		wrapProg = func(s string) string { return "KProg (" + s + ")" }
 		runC07()
 	case "C08":
+		c.SetHeader(strings.Replace(header, "corr.C05.", "corr.C05 model.Heap corr.C08.", 1))
+		wrapProg = func(s string) string { return "KProg (" + s + ")" }
 		runC08()
 	case "C19":
 		runC19()
@@ -101,6 +103,7 @@ func runC05() {
 	}
 	interpgen.Matrix(func(p *interpgen.Program) { res := emit(p); refCheck(p, res) }, stride)
 	interpgen.BigNumSweep(func(p *interpgen.Program) { emit(p) })
+	interpgen.ArithEdges(func(p *interpgen.Program) { emit(p) }, c.Thorough())
 	interpgen.Limits(func(p *interpgen.Program) { emit(p) }, c.Thorough())
 	interpgen.ScriptBoundary(func(p *interpgen.Program) { emit(p) })
 	// two value-producing opcodes in one execution (what one leaves behind must not influence the other):
@@ -339,9 +342,51 @@ func sigShapes(r *common.Rand, emitp func(*interpgen.Program), n int) {
 		}
 		return k
 	}
+	// derish: 30 L 02 rl R.. 02 sl S.. ht with every length field at and around the values at which the next field
+	// starts at, just before or just beyond the end of the signature
+	derish := func() []byte {
+		total := 8 + r.Intn(14)
+		b := r.Bytes(total)
+		b[0] = 0x30
+		b[1] = byte(total - 3 + []int{0, 0, 0, 1, -1}[r.Intn(5)])
+		b[2] = 0x02
+		rl := []int{0, 1, 2, total - 8, total - 7, total - 6, total - 5, total - 4, total - 3, total}[r.Intn(10)]
+		if rl < 0 {
+			rl = 0
+		}
+		b[3] = byte(rl)
+		if 4+rl < total {
+			b[4+rl] = []byte{0x02, 0x02, 0x02, 0x03}[r.Intn(4)]
+		}
+		if 5+rl < total {
+			rest := total - 1 - (6 + rl)
+			b[5+rl] = byte([]int{rest, rest, rest + 1, rest - 1, 0, 1}[r.Intn(6)])
+		}
+		b[total-1] = []byte{0x01, 0x41, 0x02, 0xc3, 0x43, 0x81}[r.Intn(6)]
+		return b
+	}
+	pushAs := func(form int, d []byte) []byte { // one data push in a chosen encoding
+		switch form {
+		case 1:
+			return append([]byte{0x4c, byte(len(d))}, d...)
+		case 2:
+			return append([]byte{0x4d, byte(len(d)), byte(len(d) >> 8)}, d...)
+		case 3:
+			return append([]byte{0x4e, byte(len(d)), byte(len(d) >> 8), 0, 0}, d...)
+		}
+		return interpgen.Push(d)
+	}
 	for i := 0; i < n; i++ {
 		sig, key := junkSig(), junkKey()
+		if i%3 == 1 {
+			sig = derish()
+		}
 		var unlock, lock []byte
+		// a data push in each of the longer encodings inside the script the signature opcode will serialise again
+		if i%4 == 2 {
+			lock = append(lock, pushAs(1+r.Intn(3), r.Bytes(r.Intn(4)))...)
+			lock = append(lock, 0x75)
+		}
 		// unlocking script: pushes, optionally NOPs / CODESEPARATOR / early RETURN
 		for k := r.Intn(3); k > 0; k-- {
 			unlock = append(unlock, interpgen.Push(r.Bytes(1+r.Intn(3)))...)
@@ -420,6 +465,9 @@ func sigShapes(r *common.Rand, emitp func(*interpgen.Program), n int) {
 		}
 		if r.Chance(15) {
 			p.Flags |= interpgen.FNullFail
+		}
+		if i%3 == 1 { // the signature-encoding flags, one or several
+			p.Flags |= []uint32{interpgen.FDERSig, interpgen.FLowS, interpgen.FStrictEnc, interpgen.FDERSig | interpgen.FLowS | interpgen.FStrictEnc, 0}[r.Intn(5)]
 		}
 		emitp(p.Fix())
 	}
